@@ -22,11 +22,11 @@ import (
 
 func init() {
 	ex := map[string]h.ExecFn{
-		"tl.dec":           exTLDec,
-		"tl.consts":        exTLConsts,
-		"tl.reqdec":        exTLReqDec,
-		"tl.len":           exTLLen,
-		"tl.pqa":           exTLPqa,
+		"tld.dec":           exTLDec,
+		"tld.consts":        exTLConsts,
+		"tld.reqdec":        exTLReqDec,
+		"tld.len":           exTLLen,
+		"tld.pqa":           exTLPqa,
 		"go.tl.safe":       goTLSafe,
 		"go.tl.marshalnil": goTLMarshalNil,
 		"go.tl.reqdec":     goTLReqDec,
@@ -151,7 +151,8 @@ func exFirstRoot(a []string) string {
 	n, _ := strconv.Atoi(a[0])
 	b := emptyRootsBoc(n)
 	cells, err := boc.DeserializeBoc(b)
-	if err != nil || len(cells) != n {
+	// a bag without roots is rejected by the repaired parser; when it is accepted it must give n cells
+	if !(n == 0 && err != nil) && (err != nil || len(cells) != n) {
 		return fmt.Sprintf("FAIL harness: crafted boc with %d roots gives %d cells, err %v", n, len(cells), err)
 	}
 	_, _ = code.ParseContractMethods(b)
